@@ -48,6 +48,10 @@ pub enum Op {
     Discharge { ctrl: usize, txn: TxnRef, fail: Option<bool> },
     CtrlGone { ctrl: usize, closed: bool },
     SessionEnd,
+    /// a delivery begun on a data link under a live transaction (one frame with `more`) and aborted, the abort
+    /// frame carrying `more` or not (the flag means nothing on it): nothing of it may ever be seen, and the
+    /// deliveries that follow on that link are not its continuation
+    Aborted { link: usize, txn: TxnRef, more: bool },
 }
 
 #[derive(Clone, Debug)]
@@ -83,6 +87,7 @@ impl Case {
             Op::Discharge { ctrl, txn, fail } => json!({"discharge": ctrl, "txn": ref_json(txn), "fail": fail}),
             Op::CtrlGone { ctrl, closed } => json!({"ctrl_gone": ctrl, "closed": closed}),
             Op::SessionEnd => json!({"session_end": true}),
+            Op::Aborted { link, txn, more } => json!({"aborted": link, "txn": ref_json(txn), "more": more}),
         }).collect::<Vec<_>>()})
     }
     pub fn from_json(j: &J) -> Option<Case> {
@@ -95,6 +100,8 @@ impl Case {
                 Some(Op::Discharge { ctrl: c.as_u64()? as usize, txn: ref_from(o.get("txn")?), fail: o.get("fail").and_then(|x| x.as_bool()) })
             } else if let Some(c) = o.get("ctrl_gone") {
                 Some(Op::CtrlGone { ctrl: c.as_u64()? as usize, closed: o.get("closed").and_then(|x| x.as_bool()).unwrap_or(true) })
+            } else if let Some(l) = o.get("aborted") {
+                Some(Op::Aborted { link: l.as_u64()? as usize, txn: ref_from(o.get("txn")?), more: o.get("more").and_then(|x| x.as_bool()).unwrap_or(false) })
             } else if o.get("session_end").is_some() {
                 Some(Op::SessionEnd)
             } else {
@@ -198,13 +205,17 @@ struct Script {
 impl Script {
     /// a delivery that is begun (one frame with `more`, carrying `state`) and aborted by its second frame
     async fn aborted_attempt(&mut self, handle: u32, state: Option<DeliveryState>) -> Result<(), PeerError> {
+        self.aborted_attempt_with(handle, state, false).await
+    }
+
+    async fn aborted_attempt_with(&mut self, handle: u32, state: Option<DeliveryState>, more: bool) -> Result<(), PeerError> {
         let id = self.next_out;
         self.tag += 1;
         let mut t = transfer(handle, Some(id), Some(self.tag.to_be_bytes().to_vec()), Some(false), true);
         t.state = state;
         self.peer.send(0, Performative::Transfer(t), &[0x00, 0x53, 0x77, 0xa0, 0x20, 1, 2, 3, 4, 5]).await?;
         self.next_out = self.next_out.wrapping_add(1);
-        let mut a = transfer(handle, None, None, None, false);
+        let mut a = transfer(handle, None, None, None, more);
         a.aborted = true;
         self.peer.send(0, Performative::Transfer(a), &[]).await?;
         self.next_out = self.next_out.wrapping_add(1);
@@ -606,6 +617,17 @@ pub fn run_case(case: &Case) -> Result<Observed, String> {
                         "-".to_string()
                     }
                 },
+                Op::Aborted { link, txn, more } => {
+                    let h = sc.data_handles[*link % sc.data_handles.len()];
+                    let id_bytes: Option<Vec<u8>> = match txn {
+                        TxnRef::None => None,
+                        TxnRef::Slot(k) => Some(obs.ids.get(*k).cloned().unwrap_or_else(|| unknown_id.clone())),
+                        TxnRef::Unknown => Some(unknown_id.clone()),
+                    };
+                    let state = id_bytes.map(|b| DeliveryState::TransactionalState(TransactionalState { txn_id: TransactionId::from(b), outcome: None }));
+                    sc.aborted_attempt_with(h, state, *more).await.map_err(e)?;
+                    "?".to_string()
+                }
                 Op::SessionEnd => {
                     sc.peer.send(0, Performative::End(End { error: None }), &[]).await.map_err(e)?;
                     sc.peer.recv_timeout = Duration::from_millis(200);
@@ -732,6 +754,8 @@ pub fn oracle(case: &Case, issued: usize) -> (Vec<String>, Vec<Vec<(usize, u32)>
                 dead = true;
                 "-".into()
             }
+            // only used with a live transaction: nothing to see
+            Op::Aborted { .. } => "?".into(),
         };
         outs.push(out);
         snaps.push(delivered.clone());
@@ -783,6 +807,7 @@ pub fn model_line(case: &Case, obs: &Observed) -> (String, String) {
                 }
             }
             Op::SessionEnd => words.push("e".into()),
+            Op::Aborted { .. } => {}
         }
     }
     let outs: Vec<String> = obs.outs.iter().filter(|o| *o != "?").map(|o| if o.starts_with("SE") { "SE".to_string() } else { o.clone() }).collect();
@@ -810,6 +835,7 @@ pub fn check(case: &Case, obs: &Observed) -> Option<(String, String)> {
                 Op::Discharge { .. } => "discharge",
                 Op::CtrlGone { .. } => "ctrl-gone",
                 Op::SessionEnd => "session-end",
+                Op::Aborted { .. } => "aborted-attempt",
             }
         };
         if got_c != want {
@@ -1436,6 +1462,24 @@ pub fn main(opts: &Opts) {
                         ],
                         interleave: vec![1],
                     });
+                }
+            }
+        }
+    }
+    // a transactional delivery that is aborted, then a plain delivery in several frames on the same link
+    for more in [false, true] {
+        for frames in [1usize, 2, 3] {
+            for fail in [Some(false), Some(true)] {
+                for plain_first in [false, true] {
+                    let mut ops = vec![Op::Declare { ctrl: 0 }];
+                    if plain_first {
+                        ops.push(Op::Post { link: 0, txn: TxnRef::Slot(0), frames: 2, settled: false, state_on_all: false, abort_first: false });
+                    }
+                    ops.push(Op::Aborted { link: 0, txn: TxnRef::Slot(0), more });
+                    ops.push(Op::Post { link: 0, txn: TxnRef::None, frames, settled: false, state_on_all: true, abort_first: false });
+                    ops.push(Op::Discharge { ctrl: 0, txn: TxnRef::Slot(0), fail });
+                    ops.push(Op::Post { link: 0, txn: TxnRef::None, frames: 2, settled: false, state_on_all: true, abort_first: false });
+                    corpus.push(Case { ctrl_links: 1, data_links: 1, ops, interleave: vec![] });
                 }
             }
         }
